@@ -160,6 +160,9 @@ def opLogExp (isLog : Bool) (ws : List String) : String :=
 
 /-! ## vector routines -/
 def stat (b : Bool) : String := if b then "ok ok nomsg" else "ok fail msg"
+/-- the same status when the caller passes `errbuf == NULL` (op argument `e=0`) -/
+def statE (ws : List String) (s : String) : String :=
+  if (argNat? ws "e").getD 1 == 0 then (if s == "ok ok nomsg" then "ok ok null" else if s == "ok fail msg" then "ok fail null" else s) else s
 
 def opVecD (op : String) (x y : List Float) (s : Float) (m : Nat) : String :=
   let sc (o : Option Float) : String := match o with | some r => "ok " ++ dbits r | none => "fault"
@@ -397,9 +400,9 @@ def opVec (ws : List String) : String :=
     if let some r := gen then r else
     match T with
     | 'D' => if hasY && yb.length / 8 != xb.length / 8 then "bad-op" else
-             opVecD op (doubles xb) (doubles yb) (Float.ofBits (UInt64.ofNat sbits)) m
+             statE ws (opVecD op (doubles xb) (doubles yb) (Float.ofBits (UInt64.ofNat sbits)) m)
     | 'F' => if hasY && yb.length / 4 != xb.length / 4 then "bad-op" else
-             opVecF op (floats xb) (floats yb) (Float32.ofBits (UInt32.ofNat sbits)) m
+             statE ws (opVecF op (floats xb) (floats yb) (Float32.ofBits (UInt32.ofNat sbits)) m)
     | 'I' => if hasY && yb.length / 4 != xb.length / 4 then "bad-op" else opVecI 4 op (ints 4 xb) (ints 4 yb) m ((argInt? ws "k").getD 1)
     | 'L' => if hasY && yb.length / 8 != xb.length / 8 then "bad-op" else
              if op == "MatMax" || op == "MatScale" then "bad-op" else opVecI 8 op (ints 8 xb) (ints 8 yb) m ((argInt? ws "k").getD 1)
